@@ -245,7 +245,8 @@ SIGNATURES = {
     and has(p, "park") and has(p, "unlock", "unrd", "unwr", "send"),
     # F17: unpark orders the unparker's past before the target at once, park or not
     "unpark-edge-without-park": lambda p, kind, o: has(p, "unpark") and has(p, "crd", "cwr") and (
-        (kind == "missed_failure" and verdict(o).startswith("causality")) or (kind == "forbidden" and verdict(o) == "ok")),
+        (kind == "missed_failure" and verdict(o).startswith("causality"))
+        or (kind == "forbidden" and verdict(o) in ("ok", "deadlock"))),   # (the hidden race lets the run go on)
     # F19: park tests the token without a branch point and unpark is not a branch point either
     "park-unbranched-token-test": lambda p, kind, o: kind in ("missing", "missed_failure") and has(p, "park")
     and has(p, "unpark"),
